@@ -346,6 +346,11 @@ func InitFormsProgram() diffrun.Program {
 		`mp[slog("mapidx")]`,
 		`len(slog("len"))`,
 		`new(T) == ptrT()`,
+		`append(sharedB, 7)`,
+		`append(sharedC, 5, 6)`,
+		`append(sharedD, sharedSrc...)`,
+		`copy(dstS, sharedSrc)`,
+		`copy(dstB, "xy")`,
 	}
 	multi := []string{
 		`var NAMEa, NAMEb = two("PKG-two")`,
@@ -373,6 +378,12 @@ func (t T) M() Int   { log += "T.M;"; return 2 }
 
 var (
 	shared = make([]Int, 1, 8)
+	sharedB   = make([]Int, 1, 4)
+	sharedC   = make([]Int, 0, 4)
+	sharedD   = make([]Int, 2, 8)
+	sharedSrc = []Int{41, 42}
+	dstS      = make([]Int, 3)
+	dstB      = make([]byte, 3)
 	arr    [4]Int
 	mp     = map[string]Int{}
 	tv     = T{1}
@@ -400,7 +411,14 @@ func State() string {
 	for _, v := range shared[:cap(shared)] {
 		s += itoa(int64(v)) + ","
 	}
-	return s + "|" + itoa(int64(len(mp)))
+	s += "|"
+	for _, sl := range [][]Int{sharedB[:cap(sharedB)], sharedC[:cap(sharedC)], sharedD[:cap(sharedD)], dstS} {
+		for _, v := range sl {
+			s += itoa(int64(v)) + ","
+		}
+		s += "/"
+	}
+	return s + "|" + itoa(int64(len(mp))) + string(dstB[:2])
 }
 `
 	var mainB, libB strings.Builder
